@@ -298,9 +298,19 @@ def exhaustive(tier):
             yield {"phases": {"p": {"stmts": base, "next": "p"}}, "initial": "p"}
 
 
+def missing_target(rng, pn):
+    """A switch target that names no phase: unrelated, or a near miss of an existing name (part of it, the
+    empty name, another spelling)."""
+    n = rng.choice(pn)
+    cands = ["ghost", "", n[:max(1, len(n) // 2)], n[1:], n[1:-1], n.upper(), n.capitalize(), n + " ", n + "_0",
+             " " + n, ", ".join(pn), "'" + n + "'"]
+    cands = [c for c in cands if c not in pn]
+    return rng.choice(cands)
+
+
 def rand_desc(rng):
     nph = rng.choice([1, 1, 2, 3])
-    pn = ["p", "q", "r"][:nph]
+    pn = ["p", "q", "r"][:nph] if rng.random() < 0.5 else rng.sample(["primary", "bootstrap", "init", "stage_2"], nph)
     phases = {}
     allids = {}
     share = rng.random() < 0.4          # ids are per-phase namespaces: phases may re-use each other's ids
@@ -343,7 +353,7 @@ def rand_desc(rng):
         p = rng.choice(pn)
         last = phases[p]["stmts"][-1]["id"]
         phases[p]["stmts"].append({"id": p + "sw", "kind": "switch",
-                                   "target": rng.choice(pn + ["ghost"]), "deps": [last]})
+                                   "target": rng.choice(pn + [missing_target(rng, pn)]), "deps": [last]})
     if rng.random() < 0.4:
         p = rng.choice(pn)
         nw = rng.choice([1, 1, 2])
